@@ -215,6 +215,7 @@ fn typecheck_single_package(
     let (tast, genv, mut diagnostics) =
         crate::typer::check_file_with_env(hir, hir_table, GlobalTypeEnv::new(), package, deps_envs);
     diagnostics.append(&mut hir_diagnostics);
+    let hir_interface = hir_interface.with_method_bounds_of(&genv.fn_bounds);
     let exports = PackageExports {
         type_env: genv.type_env.clone(),
         trait_env: genv.trait_env.clone(),
